@@ -738,10 +738,17 @@ func refreshRing(r *ringDescriber) error {
 
 	prevHosts := r.session.ring.currentHosts()
 
+	reported := make(map[string]struct{}, len(hosts))
 	for _, h := range hosts {
 		if r.session.cfg.filterHost(h) {
 			continue
 		}
+		if _, dup := reported[h.HostID()]; dup {
+			// a second row with the same host_id (stale system.peers entry):
+			// the first one wins, the refresh must still complete
+			continue
+		}
+		reported[h.HostID()] = struct{}{}
 
 		if host, ok := r.session.ring.addHostIfMissing(h); !ok {
 			r.session.startPoolFill(h)
